@@ -136,7 +136,13 @@ func genCase(rng *rand.Rand, i int, tier string) corr.Case {
 	}
 	keep := []int{0, 0, -1, 2}[rng.Intn(4)]
 	tag := []string{"mixed", "finality", "reorg", "payload"}[i%4]
-	ops := []string{fmt.Sprintf("reset nv=%d seed=%d mode=%s keepev=%d", nv, rng.Int63n(1<<40), mode, keep)}
+	reset := fmt.Sprintf("reset nv=%d seed=%d mode=%s keepev=%d", nv, rng.Int63n(1<<40), mode, keep)
+	if i%5 == 3 {
+		// genesis above height 0 (every migrated network) and block caches smaller / larger than the chain:
+		// the restart (PrepareCache) must work at every distance from genesis
+		reset += fmt.Sprintf(" gh=%d cache=%d", []int{1, 7, 100, 1 << 20}[rng.Intn(4)], []int{0, 3, 6, 20}[rng.Intn(4)])
+	}
+	ops := []string{reset}
 	blk := func() string {
 		p := rng.Intn(4)
 		txs, assets, bev, aev := 0, 0, 0, 0
@@ -792,13 +798,17 @@ func checkDump(kvs []node.KV, bft string) []string {
 		return bad
 	}
 	tip := uint32(0)
+	gen := ^uint32(0) // the genesis block is the lowest indexed height (0 unless the network was migrated)
 	for h := range index {
 		if h > tip {
 			tip = h
 		}
+		if h < gen {
+			gen = h
+		}
 	}
 	indexed := map[string]bool{}
-	for h := uint32(0); h <= tip; h++ {
+	for h := gen; h <= tip; h++ {
 		id, ok := index[h]
 		if !ok {
 			bad = append(bad, fmt.Sprintf("height index has a hole at %d (tip %d)", h, tip))
@@ -813,7 +823,7 @@ func checkDump(kvs []node.KV, bft string) []string {
 		if hd.Height != h {
 			bad = append(bad, fmt.Sprintf("height index %d points at a header of height %d", h, hd.Height))
 		}
-		if h > 0 {
+		if h > gen {
 			if prev, ok := index[h-1]; ok && !bytes.Equal(hd.PreviousBlockID, prev) {
 				bad = append(bad, fmt.Sprintf("header at %d does not link to the indexed block at %d", h, h-1))
 			}
@@ -881,15 +891,15 @@ func checkDump(kvs []node.KV, bft string) []string {
 					}
 				}
 			}
-			if tip > 0 && maxH != int64(tip) {
+			if tip > gen && maxH != int64(tip) {
 				bad = append(bad, fmt.Sprintf("consensus store is at height %d, tip is %d", maxH, tip))
 			}
-			if tip == 0 && maxH > 0 {
+			if tip == gen && maxH > int64(gen) {
 				bad = append(bad, fmt.Sprintf("consensus store is at height %d, tip is the genesis block", maxH))
 			}
 			hs := strings.Fields(parts[0])
 			if len(hs) == 3 && fin >= 0 {
-				if mhpc, err := strconv.ParseInt(hs[1], 10, 64); err == nil && mhpc > fin && mhpc <= int64(tip) && tip > 0 {
+				if mhpc, err := strconv.ParseInt(hs[1], 10, 64); err == nil && mhpc > fin && mhpc <= int64(tip) && tip > gen {
 					// finalized height in the chain database follows maxHeightPrecommitted of the store
 					bad = append(bad, fmt.Sprintf("maxHeightPrecommitted %d of the consensus store is ahead of the finalized height %d", mhpc, fin))
 				}
@@ -1170,10 +1180,15 @@ func runCase(c corr.Case) ([]string, []corr.Fail) {
 	keep := kvArg(w0, "keepev", 0)
 	r := &runner{mode: mode, nv: nv}
 	r.aw = NewFS()
-	cfg := node.Config{NumValidators: nv, BatchSize: nv + 1, Seed: seed, ExtraValidators: 1, KeepEventsForHeights: &keep}
+	cfg := node.Config{NumValidators: nv, BatchSize: nv + 1, Seed: seed, ExtraValidators: 1, KeepEventsForHeights: &keep,
+		GenesisHeight: uint32(kvArg(w0, "gh", 0)), MaxBlockCache: kvArg(w0, "cache", 0)}
 	c0 := r.aw.Count()
 	a, err := newNode(cfg, r.aw, mode)
 	if err != nil {
+		if cfg.GenesisHeight > 0 && strings.Contains(err.Error(), "was not found") {
+			// Executer.Init processed the genesis block and then failed to prepare the block cache
+			return []string{"fail " + err.Error()}, []corr.Fail{{Sig: "c13-restart-fails-genesis-height", Detail: fmt.Sprintf("first start with genesis height %d: %v", cfg.GenesisHeight, err), Op: 0}}
+		}
 		return []string{"fail " + err.Error()}, []corr.Fail{{Sig: "c13-harness-step", Detail: "reference node: " + err.Error(), Op: 0}}
 	}
 	defer a.Close()
